@@ -30,13 +30,13 @@ TRUSTED = ["harness/wb_ht.c, harness/api_life.c", "Python reference (multiset / 
 def classify(component, what, case):
     if component == "dict":
         line = case.get("line", "")
-        # F50: by-length insert whose prefix collides (full 32-bit hash) with the whole buffer string held by the dictionary,
+        # F110: by-length insert whose prefix collides (full 32-bit hash) with the whole buffer string held by the dictionary,
         # at the insertion that enlarges the table
         if what.startswith("lydict_insert failed (notfound)") and case.get("prefix_collision"):
-            return "F50"
+            return "F110"
         if line.split()[2:5] == ["dict", "8", "0"] and ".2.1," in line and ("leaks memory" in what or "content differs" in what or "differs from the number" in what) \
-                and line.split()[-1] in [w.split()[-1] for w in htcomp.F50_WITNESSES]:
-            return "F50"      # variant (B): exactly the listed witness (the entry of the long string is replaced, the string leaks)
+                and line.split()[-1] in [w.split()[-1] for w in htcomp.F110_WITNESSES]:
+            return "F110"      # variant (B): exactly the listed witness (the entry of the long string is replaced, the string leaks)
     if c17life is not None:
         return c17life.classify(component, what, case)
     return None
